@@ -1,11 +1,11 @@
 package ana
 
 import (
-	"strings"
 	"fmt"
 	"go/constant"
 	"go/token"
 	"go/types"
+	"strings"
 
 	"golang.org/x/tools/go/ssa"
 )
